@@ -411,10 +411,6 @@ var c05bExcuse = map[string][]string{
 
 // c05bJudge: the property on the real output (independent of the model); trigs = token-level triggers from Lean
 func c05bJudge(c *Ctx, st *h.Stage, cs *c05bCase, leanTrigs map[string]bool, lean []string) {
-	if cs.cfg.sub == "stub" {
-		st.Tag("oracle=skipped(stub style minifier writes markup characters)")
-		return
-	}
 	cl, desc, trig, inWF := c05bJudgeTree(cs.src, cs.out, cs.cfg)
 	if !inWF {
 		st.Tag("oracle=input-not-wf(skipped)")
@@ -718,6 +714,10 @@ var c05bFixed = []string{
 	`<svg>]<!--c-->]<![CDATA[>]]>&gt;</svg>`, `<svg>]]<metadata><a/></metadata>&gt; ]]&#62; ]]></svg>`, `<svg><style>a]]</style>&gt;<style>]]&gt; a{}</style>&gt;</svg>`,
 	`<svg><style><![CDATA[a]]]]></style><![CDATA[>]]><text>]</text><text>]</text>&gt;</svg>`, `<svg a="]]"/>&gt;<svg>]]<g/>&gt;</svg>`, `<svg>]]<?pi a]]?>&gt;]]<!--c-->&gt;</svg>`,
 	`<svg data-x="1.0" aria-label="10px" lang="1.0" data="1.0" aria="1.0"/>`,
+	// isCharData / escapeCDEnd after the sub-minifier (/repo d582c28), > inside a processing instruction (59fe76b)
+	`<svg><style>a{b:c&amp;}</style></svg>`, `<svg><style>a[b]] > c{d:e}</style></svg>`, `<svg><style><![CDATA[a[b]] > c{d:e}]]></style></svg>`,
+	`<svg><g style="a:&lt;"/></svg>`, `<?p a>b?><svg/>`, `<?p a/>b?><svg/>`, `<svg><style>a{b:"&#60;"}</style><g style="a:b&#38;;c:d"/></svg>`,
+	`<svg><style>]] &gt; a{}</style><style>a { } ]]</style>&gt;</svg>`,
 }
 
 // ---------- histories ----------
